@@ -21,6 +21,12 @@ chk("C05",
     "Coq proof by complete finite enumeration (vm_compute + forallb_forall) + vm_compute correspondence of fault-free rounds with the real daemons + monitored histories",
     "DESIGN.md §4 C05")
 
+chk("C07",
+    "Coq theorems over the model of update_loop's node query, UpdateableNode.check_init and DefaultNodeIO.check_init / init (Model/Locality.v), for all node tables, host names, marker contents and init requests: a node is managed exactly when its host equals the daemon's host name, it is active and the first line of its marker stripped of trailing white space is its name; nodes of other hosts and inactive nodes are always ignored; initialisation is queued only on an explicit pending request for a local active node failing the check, creates the marker only where none exists and never replaces one; one iteration performs I/O only on nodes that were local, active and initialised when it began and leaves every other marker as it was. Tie: the marker comparison (with str.rstrip modelled per code point) is re-translated from /repo on every run and proved equal to the model's (T1; query, tests, request look-up and exclusive-create mode pinned); one iteration of the real update_loop per random node table compared with the model in Coq, rstrip compared with Python on random strings and on every code point up to U+30FF (T2); histories with every mutating file-system call attributed to the iterating host and every copy row of unmanaged nodes compared before/after (only source flagging Y->M and autoclean Y->N allowed).",
+    "Coq kernel+VM; translator fragment; Sim attribution of effects to the iterating host; tasks queued before a deactivation finish on that node (theorems speak of the state when the iteration began); HSM nodes are always initialised by design",
+    "Coq proof (case analysis + induction over the node table) + regenerated guard tie + vm_compute correspondence + monitored histories",
+    "DESIGN.md §4 C07")
+
 chk("C08",
     "Coq theorems over the index model (Model/Sys.v: rows as lists of any length; writers: upsert with the INSERT/IntegrityError/UPDATE shape, keyed updates, completion with upsert in one step, cancellation, request creation, the import gate): every writer preserves well-formedness (unique (file,node) copies, unique (acq,name) files, unique request ids, completed => ordered time stamps and a copy row of the file on a node of the destination group, no temporary name registered), hence by induction every history of writers of any length from the empty index; the boolean check evaluated on snapshots is proved sound. Agreement with storage: in the item model every complete task from an agreeing state leaves healthy unreleased copies backed by good bytes, and a copy recorded removed is gone (complete enumeration). Tie: enum lists, db_value validation and every state literal written in /repo/alpenhorn re-read on every run (T1); every snapshot of the real index after every step of random histories (CLI, iterations, imports, transfers, deletions, kills, tracked faults) judged by wf_b in Coq against the harness's own verdict, malformed variants included (T2); monitors for index/storage agreement of copies not under tracked tampering (taint ends when the daemon re-verifies the copy).",
     "Coq kernel+VM; sqlite unique indexes as the cause of IntegrityError; op_ok (pull completes on a node of the request's group; clock not going backwards between two reads); operator overrides and tracked external faults exempt copies from agreement until the daemon's next verdict",
